@@ -4,11 +4,13 @@ without, in the scratch worktree /tmp/seed/<PID>), run the /verif quick checks a
 under /verif/seeded/<PID>-i/ with meta.json extended by what was run."""
 import json, os, re, shutil, subprocess, sys
 recheck = '--recheck' in sys.argv      # seeds already confirmed and kept: only re-run the checks and update meta.json
-args = [a for a in sys.argv[1:] if a != '--recheck']
+args = [a for a in sys.argv[1:] if a not in ('--recheck', '--worktree')]
 pid = args[0]
 checks = args[1:] or [pid]
-wt = f'/tmp/seed/{pid}'
-out = '/tmp/seed/out'
+root = os.environ.get('SEED_ROOT', '/tmp/seed')
+wt = f'{root}/{pid}'
+out = f'{root}/out'
+use_wt = '--worktree' in sys.argv   # run the checks against the scratch worktree (VERIF_REPO) instead of patching /repo: allows several properties in parallel
 env = dict(os.environ, PYTHONPATH=f'{wt}/src', VERIF_REPO=wt)
 def sh(cmd, **kw):
     p = subprocess.run(cmd, shell=True, stdout=subprocess.PIPE, stderr=subprocess.STDOUT, text=True, **kw)
@@ -44,16 +46,26 @@ for d in sorted(x for x in os.listdir(out) if re.fullmatch(re.escape(pid) + r'-\
         print(d, 'patch does not apply to scratch worktree'); continue
     rcb, ob = sh('/verif/tools/baseline.py', env=env)
     rc1, o1 = sh(f'/venv/bin/python {demo}', cwd=wt, env=env)
+    wt_caught = {}
+    if use_wt:
+        for c in checks:
+            rcc, oc = sh(f'./check {c} --tier quick', cwd='/verif', env=dict(os.environ, VERIF_REPO=wt))
+            m = [l for l in oc.splitlines() if f'property={c}' in l and ('VIOLATION' in l or l.startswith('OK'))]
+            wt_caught[c] = (m[0][:200] if m else 'no output: ' + oc[-200:])
     sh(f'git -C {wt} checkout -- . ')
     base_ok = 'missing=0' in ob
     ran.append(f'scratch worktree: demo exit {rc0} on HEAD, exit {rc1} with patch; baseline with patch: {ob.strip().splitlines()[-1] if ob.strip() else rcb}')
     confirmed = (rc0 == 0 and rc1 != 0 and base_ok)
     caught = {}
-    rcp, op = sh(f'/verif/tools/try_patch.sh {patch} ' + ' '.join(checks), cwd='/verif')
-    for c in checks:
-        m = [l for l in op.splitlines() if f'property={c}' in l]
-        caught[c] = (m[0][:200] if m else 'no output: ' + op[-200:])
-    ran.append('tools/try_patch.sh patch.diff ' + ' '.join(checks) + ' -> ' + json.dumps(caught))
+    if use_wt:
+        caught = wt_caught
+        ran.append(f'patch applied in scratch worktree {wt}; VERIF_REPO={wt} ./check ' + ' '.join(checks) + ' -> ' + json.dumps(caught))
+    else:
+        rcp, op = sh(f'/verif/tools/try_patch.sh {patch} ' + ' '.join(checks), cwd='/verif')
+        for c in checks:
+            m = [l for l in op.splitlines() if f'property={c}' in l]
+            caught[c] = (m[0][:200] if m else 'no output: ' + op[-200:])
+        ran.append('tools/try_patch.sh patch.diff ' + ' '.join(checks) + ' -> ' + json.dumps(caught))
     is_caught = any('VIOLATION' in v for v in caught.values())
     print(d, 'confirmed' if confirmed else f'NOT CONFIRMED (head={rc0} patched={rc1} baseline_ok={base_ok})', 'CAUGHT' if is_caught else 'MISSED', caught)
     if confirmed:
